@@ -1,6 +1,7 @@
 package rules
 
 import (
+	"go/types"
 	"fmt"
 	"go/token"
 	"strings"
@@ -823,4 +824,160 @@ func mustPassAfter(at ssa.Instruction, through map[*ssa.BasicBlock]bool, target 
 		}
 	}
 	return true
+}
+
+// ---- C07/monotone: the annotation record only grows ----
+
+func init() {
+	p := Properties["C07"]
+	p.Rules = append(p.Rules, Rule{"C07/monotone", ruleC07Monotone}, Rule{"C07/visits-all", ruleC07VisitsAll})
+}
+
+// Every write to a field of an annotations record, anywhere in the closure of
+// Validate, is monotone: flags are only set to true, endIndex is only raised
+// (the store is guarded by new > old), sets only gain members.
+func ruleC07Monotone(c *Ctx) {
+	const rule = "C07/monotone"
+	ev := c.Closure(rule, "EV")
+	n := 0
+	for _, fn := range ev.Sorted() {
+		fi := core.Info(fn)
+		core.EachInstr(fn, func(i ssa.Instruction) {
+			switch x := i.(type) {
+			case *ssa.Store:
+				fa, ok := x.Addr.(*ssa.FieldAddr)
+				if !ok || !c.isPkgNamed(fa.X.Type(), "annotations") {
+					return
+				}
+				f := core.StructField(fa.X.Type(), fa.Field)
+				n++
+				construct := core.FuncName(fn) + ":" + f.Name()
+				switch ft := f.Type().Underlying().(type) {
+				case *types.Basic:
+					if ft.Kind() == types.Bool {
+						k, isConst := x.Val.(*ssa.Const)
+						c.R.Check(isConst && k.Value != nil && k.Value.String() == "true", rule, construct, c.pos(x), "the flag is only ever set to true", "annotations."+f.Name()+" is assigned something other than the constant true: a recorded 'all evaluated' could be withdrawn or set spuriously")
+						return
+					}
+					// integer high-water mark: guarded by new > old
+					raised := false
+					for _, br := range fi.Guards(x.Block()) {
+						cond, pol := br.Cond()
+						bo, ok := cond.(*ssa.BinOp)
+						if !ok {
+							continue
+						}
+						isOld := func(v ssa.Value) bool {
+							ld, ok := v.(*ssa.UnOp)
+							if !ok {
+								return false
+							}
+							fa2, ok := ld.X.(*ssa.FieldAddr)
+							return ok && fa2.Field == fa.Field && fa2.X == fa.X
+						}
+						isNew := func(v ssa.Value) bool { return v == x.Val || sameLoadSource(v, x.Val) || sameFieldLoad(v, x.Val) }
+						switch {
+						case isNew(bo.X) && isOld(bo.Y) && ((bo.Op == token.GTR && pol) || (bo.Op == token.LEQ && !pol)):
+							raised = true
+						case isOld(bo.X) && isNew(bo.Y) && ((bo.Op == token.LSS && pol) || (bo.Op == token.GEQ && !pol)):
+							raised = true
+						}
+					}
+					c.R.Check(raised, rule, construct, c.pos(x), "the high-water mark is stored only when the new value exceeds the old one", "annotations."+f.Name()+" is assigned without a guard `new > old` on the same value: the evaluated prefix recorded by prefixItems (or merged from an in-place applicator) can shrink")
+				case *types.Map:
+					// the stored map must be a fresh map or the result of the set-merge helper (checked by C14/no-annotation-aliasing)
+					okv := false
+					switch v := x.Val.(type) {
+					case *ssa.MakeMap:
+						okv = true
+					case *ssa.Call:
+						if callee := v.Call.StaticCallee(); callee != nil && c.P.InPkg(callee) {
+							okv = true
+						}
+					}
+					c.R.Check(okv, rule, construct, c.pos(x), "the set is replaced only by a fresh map or by the merge helper's result", "annotations."+f.Name()+" is overwritten with another map: recorded members can be lost")
+				}
+			case *ssa.Call:
+				key := core.CalleeKey(&x.Call)
+				if key != "builtin.delete" && key != "builtin.clear" {
+					return
+				}
+				for _, s := range traceSources(x.Call.Args[0]) {
+					if ld, ok := s.(*ssa.UnOp); ok {
+						if fa, ok := ld.X.(*ssa.FieldAddr); ok && c.isPkgNamed(fa.X.Type(), "annotations") {
+							c.R.Bad(rule, core.FuncName(fn)+":"+key, c.pos(x), "members are removed from an annotation set")
+						}
+					}
+				}
+			}
+		})
+	}
+	c.R.Floor(rule, "stores to annotation fields in the closure of Validate", n, 10)
+}
+
+// An in-place applicator over a list (anyOf, oneOf) must evaluate every
+// subschema unless the keyword has already failed: the loop around the site has
+// no exit other than exhaustion and failure returns.
+func ruleC07VisitsAll(c *Ctx) {
+	const rule = "C07/visits-all"
+	m := c.EvalModel(rule)
+	if m == nil {
+		return
+	}
+	n := 0
+	for _, s := range m.Sites {
+		for _, src := range s.SchemaSrc {
+			if src != "Schema.AnyOf" && src != "Schema.OneOf" && src != "Schema.AllOf" {
+				continue
+			}
+			site := s.siteInstr()
+			fn := site.Parent()
+			b := site.Block()
+			// innermost loop header: a dominator of b that is reachable from b
+			var header *ssa.BasicBlock
+			for d := b; d != nil && header == nil; d = d.Idom() {
+				for _, pr := range d.Preds {
+					if d.Dominates(pr) && (pr == b || core.Reachable(b, pr, nil)) {
+						header = d
+					}
+				}
+			}
+			if header == nil {
+				c.R.Unknown(rule, src, c.pos(site), "the evaluation site is not inside a loop over the subschemas")
+				continue
+			}
+			n++
+			inLoop := map[*ssa.BasicBlock]bool{}
+			for _, blk := range fn.Blocks {
+				if header.Dominates(blk) && (blk == header || core.Reachable(blk, header, nil)) {
+					inLoop[blk] = true
+				}
+			}
+			bad := ""
+			for blk := range inLoop {
+				for _, succ := range blk.Succs {
+					if inLoop[succ] || blk == header {
+						continue
+					}
+					if !blockReturnsError(succ) && !blockReturnsErrorDeep(succ) {
+						bad = c.pos(blk.Instrs[len(blk.Instrs)-1])
+					}
+				}
+			}
+			c.R.Check(bad == "", rule, src, c.pos(site), "the loop over "+src+" leaves only by exhaustion or by a failure return: every subschema contributes its annotations", fmt.Sprintf("the loop over %s can be left early without failing (at %s): subschemas after the first decisive one are not evaluated, so their annotations are missing for unevaluated*", src, bad))
+		}
+	}
+	c.R.Floor(rule, "list applicator loops", n, 3)
+}
+
+// sameFieldLoad: both values load the same field of the same base pointer.
+func sameFieldLoad(a, b ssa.Value) bool {
+	la, ok1 := a.(*ssa.UnOp)
+	lb, ok2 := b.(*ssa.UnOp)
+	if !ok1 || !ok2 {
+		return false
+	}
+	fa, ok1 := la.X.(*ssa.FieldAddr)
+	fb, ok2 := lb.X.(*ssa.FieldAddr)
+	return ok1 && ok2 && fa.Field == fb.Field && fa.X == fb.X
 }
